@@ -401,7 +401,22 @@ def _group_count_sites(fn):
             elif isinstance(t, (ast.Tuple, ast.List)) and len(t.elts) == 2 and all(isinstance(e, ast.Name) for e in t.elts) and not isinstance(a.value, (ast.Tuple, ast.List)):
                 two_d.update(e.id for e in t.elts)  # `out_features, in_features = size`: a 2-D size
 
+    def total_count(e, depth=2):
+        # the element count of a whole tensor / shape: `t.numel()`, `shape.numel()`, or a local bound to one
+        if isinstance(e, ast.Call) and isinstance(e.func, ast.Attribute) and e.func.attr == "numel" and not e.args:
+            return True
+        return isinstance(e, ast.Name) and depth > 0 and e.id in locs and all(total_count(v, depth - 1) for v in locs[e.id])
+
+    def axis_extent(e, depth=2):
+        if isinstance(e, ast.Subscript) and (U(e.value).endswith(".shape") or U(e.value) in ("shape", "size", "orig_shape")):
+            return True
+        return isinstance(e, ast.Name) and depth > 0 and e.id in locs and all(axis_extent(v, depth - 1) for v in locs[e.id])
+
     def per_index(e, depth=3):
+        if total_count(e):
+            return True  # the total number of groups of the tensor: numel // group_size
+        if isinstance(e, ast.BinOp) and isinstance(e.op, ast.FloorDiv) and total_count(e.left) and axis_extent(e.right):
+            return True
         x = U(e).replace(" ", "")
         if isinstance(e, ast.BinOp) and isinstance(e.op, ast.FloorDiv):
             l, r = U(e.left).replace(" ", ""), U(e.right).replace(" ", "")
